@@ -1,7 +1,7 @@
 // Package c08 is the correspondence stream "repl" of property C08: a real leader partition
-// (replica.NewPartition over a real queue.FanOutQueue, real remoteReplicator built by
-// BuildReplicaForLeader) replicates to a real follower partition through a LOOPBACK rpc
-// client that calls the real follower handler (app/storage/rpc.ReplicaHandler: Replica stream
+// (replica.NewPartition over a real queue.FanOutQueue, two real remoteReplicators built by
+// BuildReplicaForLeader) replicates to TWO real follower partitions through a LOOPBACK rpc
+// client that calls the real follower handlers (app/storage/rpc.ReplicaHandler: Replica stream
 // loop, GetReplicaAckIndex, Reset) in-process, with fault injection in the loopback.
 //
 // Real: pkg/queue (queue, fan-out queue, consumer groups, mmap pages on disk), replica.partition
@@ -10,7 +10,7 @@
 // ReplicaHandler (all three rpc methods, metadata decoding).
 // Stubbed: gRPC transport (loopback channels), storage.StateManager (live flag + callback),
 // WriteAheadLogManager/WriteAheadLog (return the one follower partition), tsdb.Shard /
-// tsdb.DataFamily / tsdb.Database (names, ids, a time range that never expires; the follower's
+// tsdb.DataFamily / tsdb.Database (names, ids, a time range that is inside or past the write window on demand; the follower's
 // local replicator is built by the real BuildReplicaForFollower but never stepped).
 // Stepping: replica.VerifC08ReplicaStep (one replicaLoop iteration, never waits for data).
 package c08
@@ -52,10 +52,8 @@ func init() { core.Register(area{}) }
 func (area) Name() string { return "repl" }
 
 const (
-	leaderID   = models.NodeID(1)
-	followerID = models.NodeID(2)
-	otherGroup = "9"
-	dbName     = "db"
+	leaderID = models.NodeID(1)
+	dbName   = "db"
 )
 
 // ---------------------------------------------------------------- tsdb / state stubs
@@ -79,7 +77,8 @@ func (s *stubShard) Indicator() string       { return "db/0" }
 
 type stubFamily struct {
 	tsdb.DataFamily
-	shard *stubShard
+	shard   *stubShard
+	expired bool
 }
 
 func (f *stubFamily) Shard() tsdb.Shard              { return f.shard }
@@ -89,43 +88,46 @@ func (f *stubFamily) Retain()                        {}
 func (f *stubFamily) Release()                       {}
 func (f *stubFamily) AckSequence(int32, func(int64)) {}
 func (f *stubFamily) TimeRange() timeutil.TimeRange {
-	// never expires: IsExpire returns after Sync+GC
-	return timeutil.TimeRange{Start: 0, End: 1 << 60}
+	if f.expired { // far behind the write window: IsExpire goes on to the drained test
+		return timeutil.TimeRange{Start: 0, End: 1}
+	}
+	return timeutil.TimeRange{Start: 0, End: 1 << 60} // inside the window: IsExpire = Sync + GC
 }
 
 type stateMgr struct {
 	storage.StateManager
-	live bool
-	fn   func(models.NodeStateType)
+	w   *world
+	fns map[models.NodeID]func(models.NodeStateType)
 }
 
 func (m *stateMgr) GetLiveNode(id models.NodeID) (models.StatefulNode, bool) {
-	if !m.live {
+	p := m.w.peerByID(id)
+	if p == nil || !p.live {
 		return models.StatefulNode{}, false
 	}
 	return models.StatefulNode{ID: id}, true
 }
-func (m *stateMgr) WatchNodeStateChangeEvent(_ models.NodeID, fn func(models.NodeStateType)) {
-	m.fn = fn
+func (m *stateMgr) WatchNodeStateChangeEvent(id models.NodeID, fn func(models.NodeStateType)) {
+	m.fns[id] = fn
 }
 
 type walMgr struct {
 	replica.WriteAheadLogManager
-	w *world
+	p *peer
 }
 
-func (m *walMgr) GetOrCreateLog(string) replica.WriteAheadLog { return &wal{w: m.w} }
+func (m *walMgr) GetOrCreateLog(string) replica.WriteAheadLog { return &wal{p: m.p} }
 
 type wal struct {
 	replica.WriteAheadLog
-	w *world
+	p *peer
 }
 
 func (l *wal) GetOrCreatePartition(models.ShardID, int64, models.NodeID) (replica.Partition, error) {
-	if l.w.fp == nil {
+	if l.p.fp == nil {
 		return nil, errors.New("follower partition not open")
 	}
-	return l.w.fp, nil
+	return l.p.fp, nil
 }
 
 // ---------------------------------------------------------------- loopback rpc
@@ -149,7 +151,6 @@ func (s *session) kill() {
 	<-s.done
 }
 
-// server side of the stream
 type serverStream struct {
 	grpc.ServerStream
 	s *session
@@ -172,30 +173,40 @@ func (ss serverStream) Send(r *protoReplicaV1.ReplicaResponse) error {
 	return nil
 }
 
-// client side of the stream
 type clientStream struct {
 	grpc.ClientStream
-	w *world
+	p *peer
 	s *session
 }
 
 func (cs *clientStream) Send(r *protoReplicaV1.ReplicaRequest) error {
-	w := cs.w
+	w := cs.p.w
 	w.sendTried = true
-	if cs.s.closed || cs.s.gen != w.fgen {
+	if cs.s.closed || cs.s.gen != cs.p.fgen {
 		w.sendFailed = true
 		return io.EOF
 	}
 	if w.fault == "send" {
-		w.sendFailed = true
-		return errors.New("injected send failure")
+		// the request is lost: whether Send reports it or Send succeeds and Recv fails makes no
+		// difference to either side's state; alternate between the two on the real code
+		w.lostToggle = !w.lostToggle
+		if w.lostToggle {
+			w.sendFailed = true
+			return errors.New("injected send failure")
+		}
+		w.lostInFlight = true
+		return nil
 	}
 	w.lastReq = r
 	cs.s.reqCh <- r
 	return nil
 }
 func (cs *clientStream) Recv() (*protoReplicaV1.ReplicaResponse, error) {
-	w := cs.w
+	w := cs.p.w
+	if w.lostInFlight {
+		w.sendFailed = true
+		return nil, errors.New("injected: request lost in flight")
+	}
 	select {
 	case r := <-cs.s.respCh:
 		if w.fault == "recv" {
@@ -214,48 +225,50 @@ func (cs *clientStream) CloseSend() error {
 	return nil
 }
 
-type replicaClient struct{ w *world }
+type replicaClient struct{ p *peer }
 
 func (c *replicaClient) Reset(ctx context.Context, in *protoReplicaV1.ResetIndexRequest, _ ...grpc.CallOption) (*protoReplicaV1.ResetIndexResponse, error) {
-	if c.w.fault == "reset" {
+	w := c.p.w
+	if w.fault == "reset" {
 		return nil, errors.New("injected reset failure")
 	}
-	c.w.hsReset = true
-	return c.w.handler.Reset(ctx, in)
+	w.hsReset = true
+	return c.p.handler.Reset(ctx, in)
 }
 func (c *replicaClient) GetReplicaAckIndex(ctx context.Context, in *protoReplicaV1.GetReplicaAckIndexRequest, _ ...grpc.CallOption) (*protoReplicaV1.GetReplicaAckIndexResponse, error) {
-	if c.w.fault == "getack" {
+	w := c.p.w
+	if w.fault == "getack" {
 		return nil, errors.New("injected get-ack failure")
 	}
-	r, err := c.w.handler.GetReplicaAckIndex(ctx, in)
+	r, err := c.p.handler.GetReplicaAckIndex(ctx, in)
 	if err == nil {
-		c.w.hsSeen = true
-		c.w.hsRemoteAck = r.AckIndex
-		c.w.hsLeaderApp = c.w.lq.Queue().AppendedSeq()
-		c.w.hsLeaderCons = c.w.group().ConsumedSeq()
+		w.hsSeen = true
+		w.hsRemoteAck = r.AckIndex
+		w.hsLeaderApp = w.lq.Queue().AppendedSeq()
+		w.hsLeaderCons = c.p.grp.ConsumedSeq()
 	}
 	return r, err
 }
 func (c *replicaClient) Replica(ctx context.Context, _ ...grpc.CallOption) (protoReplicaV1.ReplicaService_ReplicaClient, error) {
-	w := c.w
-	if w.fault == "connect" {
+	p := c.p
+	if p.w.fault == "connect" {
 		return nil, errors.New("injected connect failure")
 	}
 	md, _ := metadata.FromOutgoingContext(ctx)
-	s := &session{gen: w.fgen, reqCh: make(chan *protoReplicaV1.ReplicaRequest), respCh: make(chan *protoReplicaV1.ReplicaResponse, 1),
+	s := &session{gen: p.fgen, reqCh: make(chan *protoReplicaV1.ReplicaRequest), respCh: make(chan *protoReplicaV1.ReplicaResponse, 1),
 		ready: make(chan struct{}), done: make(chan struct{}), ctx: metadata.NewIncomingContext(context.Background(), md)}
 	go func() {
 		defer close(s.done)
 		defer func() { _ = recover() }()
-		_ = w.handler.Replica(serverStream{s: s})
+		_ = p.handler.Replica(serverStream{s: s})
 	}()
 	select {
 	case <-s.ready:
 	case <-s.done:
 		return nil, errors.New("handler refused the stream")
 	}
-	w.sess = s
-	return &clientStream{w: w, s: s}, nil
+	p.sess = s
+	return &clientStream{p: p, s: s}, nil
 }
 
 type streamFactory struct {
@@ -263,36 +276,66 @@ type streamFactory struct {
 	w *world
 }
 
-func (f *streamFactory) CreateReplicaServiceClient(models.Node) (protoReplicaV1.ReplicaServiceClient, error) {
+func (f *streamFactory) CreateReplicaServiceClient(target models.Node) (protoReplicaV1.ReplicaServiceClient, error) {
+	sn, ok := target.(*models.StatefulNode)
+	if !ok {
+		return nil, errors.New("unexpected node type")
+	}
+	p := f.w.peerByID(sn.ID)
+	if p == nil {
+		return nil, errors.New("unknown follower")
+	}
+	p.disturbed = false // a handshake of this channel starts
 	if f.w.fault == "cli" {
 		return nil, errors.New("injected client failure")
 	}
-	return &replicaClient{w: f.w}, nil
+	return &replicaClient{p: p}, nil
 }
 
 // ---------------------------------------------------------------- the world of one case
 
-type world struct {
+type peer struct {
+	w       *world
+	name    string
+	id      models.NodeID
 	dir     string
-	shard   *stubShard
-	family  *stubFamily
-	lq      queue.FanOutQueue
-	lp      replica.Partition
-	sm      *stateMgr
-	other   queue.ConsumerGroup
 	fq      queue.FanOutQueue
 	fp      replica.Partition
 	handler *storagerpc.ReplicaHandler
 	fgen    int
 	sess    *session
 	live    bool
-	hasImg  bool
 	pending chan string
-	cancel  context.CancelFunc
+	grp     queue.ConsumerGroup // this follower's consumer group on the leader (handle of the current incarnation)
+	stopped bool                // IsExpire stopped the group and removed the replicator
+
+	fwEpoch   map[int64]int // follower position -> epoch of the leader bytes it received
+	disturbed bool          // the other channel's handshake reset the leader's append index while this channel was ready
+}
+
+type image struct {
+	dir      string
+	lwEpoch  map[int64]int
+	lwSynced [2]map[int64]bool
+}
+
+type world struct {
+	dir    string
+	shard  *stubShard
+	family *stubFamily
+	lq     queue.FanOutQueue
+	lp     replica.Partition
+	sm     *stateMgr
+	peers  [2]*peer
+	imgs   []*image // newest first
+	imgSeq int
+	gone   bool
+	cancel context.CancelFunc
 
 	// per-step instrumentation
 	fault                             string
 	sendTried, sendFailed, recvFailed bool
+	lostInFlight, lostToggle          bool
 	lastReq                           *protoReplicaV1.ReplicaRequest
 	lastResp                          *protoReplicaV1.ReplicaResponse
 	hsSeen, hsReset                   bool
@@ -300,22 +343,30 @@ type world struct {
 	hsLeaderCons                      int64
 
 	// oracle bookkeeping
-	lossSeen  bool           // an lrestore with an image happened
-	epoch     int            // number of lrestores so far
-	lwEpoch   map[int64]int  // leader position -> epoch of its current bytes
-	lwSynced  map[int64]bool // leader position -> was the channel synced when it was appended
-	fwEpoch   map[int64]int  // follower position -> epoch of the leader bytes it received
-	imgEpochs map[int64]int  // lwEpoch at image time
-	imgSynced map[int64]bool
+	lossSeen bool              // an lrestore happened
+	epoch    int               // number of lrestores so far
+	lwEpoch  map[int64]int     // leader position -> epoch of its current bytes
+	lwSynced [2]map[int64]bool // leader position -> was channel i synced when it was appended
 }
 
-func (w *world) leaderDir() string   { return filepath.Join(w.dir, "leader") }
-func (w *world) followerDir() string { return filepath.Join(w.dir, "follower") }
-func (w *world) imgDir() string      { return filepath.Join(w.dir, "image") }
+func (w *world) leaderDir() string { return filepath.Join(w.dir, "leader") }
 
-func (w *world) group() queue.ConsumerGroup {
-	g, _ := w.lq.GetOrCreateConsumerGroup(strconv.Itoa(int(followerID)))
-	return g
+func (w *world) peerByID(id models.NodeID) *peer {
+	for _, p := range w.peers {
+		if p.id == id {
+			return p
+		}
+	}
+	return nil
+}
+
+func (w *world) peerByName(n string) *peer {
+	for _, p := range w.peers {
+		if p.name == n {
+			return p
+		}
+	}
+	return nil
 }
 
 func (w *world) openLeader() error {
@@ -324,43 +375,52 @@ func (w *world) openLeader() error {
 		return err
 	}
 	w.lq = q
-	if w.other, err = q.GetOrCreateConsumerGroup(otherGroup); err != nil {
-		return err
-	}
-	w.sm = &stateMgr{live: w.live}
+	w.sm = &stateMgr{w: w, fns: map[models.NodeID]func(models.NodeStateType){}}
 	ctx, cancel := context.WithCancel(context.Background())
 	w.cancel = cancel
 	w.lp = replica.NewPartition(ctx, w.shard, w.family, leaderID, q, &streamFactory{w: w}, w.sm)
-	return w.lp.BuildReplicaForLeader(leaderID, []models.NodeID{followerID})
+	if err := w.lp.BuildReplicaForLeader(leaderID, []models.NodeID{w.peers[0].id, w.peers[1].id}); err != nil {
+		return err
+	}
+	for _, p := range w.peers {
+		if p.grp, err = q.GetOrCreateConsumerGroup(strconv.Itoa(int(p.id))); err != nil {
+			return err
+		}
+		p.stopped = false
+		p.disturbed = false
+	}
+	return nil
 }
 
 func (w *world) closeLeader() {
-	w.pending = nil // a parked loop dies with the process
-	if w.sess != nil && w.sess.gen == w.fgen {
-		w.sess.kill() // the transport dies with the process
+	for _, p := range w.peers {
+		p.pending = nil // a parked loop dies with the process
+		if p.sess != nil && p.sess.gen == p.fgen {
+			p.sess.kill() // the transport dies with the process
+		}
+		p.sess = nil
 	}
-	w.sess = nil
 	w.cancel()
 	_ = w.lp.Close()
 }
 
-func (w *world) openFollower() error {
-	q, err := queue.NewFanOutQueue(w.followerDir(), 0)
+func (p *peer) open() error {
+	q, err := queue.NewFanOutQueue(p.dir, 0)
 	if err != nil {
 		return err
 	}
-	w.fq = q
-	w.fp = replica.NewPartition(context.Background(), w.shard, w.family, followerID, q, nil, nil)
+	p.fq = q
+	p.fp = replica.NewPartition(context.Background(), p.w.shard, p.w.family, p.id, q, nil, nil)
 	return nil
 }
 
-func (w *world) closeFollower() {
-	if w.sess != nil {
-		w.sess.kill()
+func (p *peer) close() {
+	if p.sess != nil {
+		p.sess.kill()
 	}
-	w.fgen++
-	_ = w.fp.Close()
-	w.fp = nil
+	p.fgen++
+	_ = p.fp.Close()
+	p.fp = nil
 }
 
 func newWorld() (*world, error) {
@@ -370,11 +430,16 @@ func newWorld() (*world, error) {
 	}
 	db := &stubDB{opt: &option.DatabaseOption{Ahead: "1h", Behind: "1h"}}
 	sh := &stubShard{db: db}
-	w := &world{dir: dir, shard: sh, family: &stubFamily{shard: sh}, live: true,
-		lwEpoch: map[int64]int{}, lwSynced: map[int64]bool{}, fwEpoch: map[int64]int{}}
-	w.handler = storagerpc.NewReplicaHandler(&walMgr{w: w})
-	if err := w.openFollower(); err != nil {
-		return nil, err
+	w := &world{dir: dir, shard: sh, family: &stubFamily{shard: sh}, lwEpoch: map[int64]int{}}
+	for i := range w.peers {
+		w.lwSynced[i] = map[int64]bool{}
+		p := &peer{w: w, name: string(rune('a' + i)), id: models.NodeID(2 + i), dir: filepath.Join(dir, "follower-"+string(rune('a'+i))),
+			live: true, fwEpoch: map[int64]int{}}
+		p.handler = storagerpc.NewReplicaHandler(&walMgr{p: p})
+		w.peers[i] = p
+		if err := p.open(); err != nil {
+			return nil, err
+		}
 	}
 	if err := w.openLeader(); err != nil {
 		return nil, err
@@ -387,17 +452,19 @@ func (w *world) destroy() {
 		defer func() { _ = recover() }()
 		w.closeLeader()
 	}()
-	func() {
-		defer func() { _ = recover() }()
-		if w.fp != nil {
-			w.closeFollower()
-		}
-	}()
+	for _, p := range w.peers {
+		func() {
+			defer func() { _ = recover() }()
+			if p.fp != nil {
+				p.close()
+			}
+		}()
+	}
 	os.RemoveAll(w.dir)
 }
 
 // copyTree copies a partition directory; page files are large sparse mmap files, so only
-// non-zero 64 KiB blocks are written.
+// the data extents (and of those only non-zero 64 KiB blocks) are written.
 func copyTree(src, dst string) error {
 	return filepath.Walk(src, func(p string, info os.FileInfo, err error) error {
 		if err != nil {
@@ -490,54 +557,73 @@ func showLog(q queue.Queue) (string, map[int64]string) {
 	return fmt.Sprintf("%d/%d [%s]", ack, app, strings.Join(items, " ")), held
 }
 
+type peerObs struct {
+	fHeld          map[int64]string
+	cons, gack     int64
+	fAck, fApp     int64
+	chanSt, stream string
+	synced, susp   bool
+	stopped        bool
+}
+
 type obs struct {
-	line               string
-	lHeld, fHeld       map[int64]string
-	lAck, lApp         int64
-	cons, gack, oack   int64
-	fAck, fApp         int64
-	chanSt, stream     string
-	synced, susp, live bool
+	line       string
+	lHeld      map[int64]string
+	lAck, lApp int64
+	p          [2]peerObs
+}
+
+func b01(x bool) string {
+	if x {
+		return "1"
+	}
+	return "0"
 }
 
 func (w *world) observe() obs {
 	var o obs
-	var ls, fs string
+	var ls string
 	ls, o.lHeld = showLog(w.lq.Queue())
-	fs, o.fHeld = showLog(w.fq.Queue())
 	o.lAck, o.lApp = w.lq.Queue().AcknowledgedSeq(), w.lq.Queue().AppendedSeq()
-	o.fAck, o.fApp = w.fq.Queue().AcknowledgedSeq(), w.fq.Queue().AppendedSeq()
-	g := w.group()
-	o.cons, o.gack, o.oack = g.ConsumedSeq(), g.AcknowledgedSeq(), w.other.AcknowledgedSeq()
-	st, hasStream, susp, ok := replica.VerifC08ReplicatorInfo(w.lp, followerID)
-	o.chanSt = "?"
-	if ok {
-		switch models.ReplicatorState(st) {
-		case models.ReplicatorInitState:
-			o.chanSt = "init"
-		case models.ReplicatorReadyState:
-			o.chanSt = "ready"
-		case models.ReplicatorFailureState:
-			o.chanSt = "failure"
-		}
-	}
-	o.stream = "none"
-	if hasStream {
-		if w.sess != nil && !w.sess.closed && w.sess.gen == w.fgen {
-			o.stream = "up"
+	parts := []string{"L=" + ls}
+	for i, p := range w.peers {
+		po := &o.p[i]
+		var fs string
+		fs, po.fHeld = showLog(p.fq.Queue())
+		po.fAck, po.fApp = p.fq.Queue().AcknowledgedSeq(), p.fq.Queue().AppendedSeq()
+		po.cons, po.gack = p.grp.ConsumedSeq(), p.grp.AcknowledgedSeq()
+		po.stopped = p.stopped
+		po.chanSt, po.stream = "-", "-"
+		st, hasStream, susp, ok := replica.VerifC08ReplicatorInfo(w.lp, p.id)
+		if ok {
+			switch models.ReplicatorState(st) {
+			case models.ReplicatorInitState:
+				po.chanSt = "init"
+			case models.ReplicatorReadyState:
+				po.chanSt = "ready"
+			case models.ReplicatorFailureState:
+				po.chanSt = "failure"
+			default:
+				po.chanSt = "?"
+			}
+			po.stream = "none"
+			if hasStream {
+				if p.sess != nil && !p.sess.closed && p.sess.gen == p.fgen {
+					po.stream = "up"
+				} else {
+					po.stream = "broken"
+				}
+			}
+			po.susp = susp
 		} else {
-			o.stream = "broken"
+			po.susp = p.pending != nil
 		}
+		po.synced = po.chanSt == "ready" && po.stream == "up"
+		parts = append(parts, fmt.Sprintf("%s: c=%d g=%d F=%s %s %s live=%s susp=%s stop=%s", strings.ToUpper(p.name), po.cons, po.gack, fs,
+			po.chanSt, po.stream, b01(p.live), b01(po.susp), b01(p.stopped)))
 	}
-	o.susp, o.live = susp, w.live
-	o.synced = o.chanSt == "ready" && o.stream == "up"
-	b := func(x bool) string {
-		if x {
-			return "1"
-		}
-		return "0"
-	}
-	o.line = fmt.Sprintf("L=%s c=%d g=%d o=%d F=%s %s %s live=%s susp=%s img=%s", ls, o.cons, o.gack, o.oack, fs, o.chanSt, o.stream, b(o.live), b(susp), b(w.hasImg))
+	parts = append(parts, fmt.Sprintf("imgs=%d gone=%s", len(w.imgs), b01(w.gone)))
+	o.line = strings.Join(parts, " ")
 	return o
 }
 
@@ -545,13 +631,13 @@ func (w *world) observe() obs {
 
 func (w *world) resetStepFlags(fault string) {
 	w.fault = fault
-	w.sendTried, w.sendFailed, w.recvFailed = false, false, false
+	w.sendTried, w.sendFailed, w.recvFailed, w.lostInFlight = false, false, false, false
 	w.lastReq, w.lastResp = nil, nil
 	w.hsSeen, w.hsReset = false, false
 }
 
 // waitStep waits until the step goroutine finished or parked on `<-r.suspend`.
-func (w *world) waitStep(done chan string) (string, error) {
+func (w *world) waitStep(p *peer, done chan string) (string, error) {
 	deadline := time.Now().Add(20 * time.Second)
 	for {
 		select {
@@ -559,7 +645,7 @@ func (w *world) waitStep(done chan string) (string, error) {
 			return w.label(r), nil
 		default:
 		}
-		st, _, susp, ok := replica.VerifC08ReplicatorInfo(w.lp, followerID)
+		st, _, susp, ok := replica.VerifC08ReplicatorInfo(w.lp, p.id)
 		if ok && susp && models.ReplicatorState(st) == models.ReplicatorFailureState {
 			// parked (or about to park) on the suspend channel
 			select {
@@ -567,7 +653,7 @@ func (w *world) waitStep(done chan string) (string, error) {
 				return w.label(r), nil
 			case <-time.After(2 * time.Millisecond):
 			}
-			w.pending = done
+			p.pending = done
 			return "parked", nil
 		}
 		if time.Now().After(deadline) {
@@ -597,7 +683,7 @@ func (w *world) label(r string) string {
 	}
 }
 
-func (w *world) startStep() chan string {
+func (w *world) startStep(p *peer) chan string {
 	done := make(chan string, 1)
 	lp := w.lp
 	go func() {
@@ -606,7 +692,7 @@ func (w *world) startStep() chan string {
 				done <- fmt.Sprintf("panic:%v", r)
 			}
 		}()
-		done <- replica.VerifC08ReplicaStep(lp, followerID)
+		done <- replica.VerifC08ReplicaStep(lp, p.id)
 	}()
 	return done
 }
@@ -625,182 +711,296 @@ func isFault(s string) bool {
 }
 
 // apply executes one protocol line on the implementation; returns the out label ("bad-op"
-// for lines the protocol does not know).
-func (w *world) apply(c *core.Ctx, op string) (string, error) {
+// for lines the protocol does not know) and the peer the event belongs to (nil: leader event).
+func (w *world) apply(op string, pre obs) (string, *peer, error) {
 	ws := strings.Fields(op)
 	w.resetStepFlags("none")
-	switch {
-	case len(ws) == 2 && ws[0] == "append":
+	if len(ws) == 0 {
+		return "bad-op", nil, nil
+	}
+	var p *peer
+	switch ws[0] {
+	case "step", "online":
+		if len(ws) != 3 || !isFault(ws[2]) {
+			return "bad-op", nil, nil
+		}
+		p = w.peerByName(ws[1])
+	case "frestart", "flose", "offline":
+		if len(ws) != 2 {
+			return "bad-op", nil, nil
+		}
+		p = w.peerByName(ws[1])
+	case "append":
+		if len(ws) != 2 {
+			return "bad-op", nil, nil
+		}
+	case "lrestore":
+		if len(ws) != 2 {
+			return "bad-op", nil, nil
+		}
+	case "lsnap", "lrestart", "gc", "expire":
+		if len(ws) != 1 {
+			return "bad-op", nil, nil
+		}
+	default:
+		return "bad-op", nil, nil
+	}
+	if (ws[0] == "step" || ws[0] == "online" || ws[0] == "frestart" || ws[0] == "flose" || ws[0] == "offline") && p == nil {
+		return "bad-op", nil, nil
+	}
+	if ws[0] == "append" && ws[1] != "-" {
+		b, err := hex.DecodeString(ws[1])
+		if err != nil || len(b) == 0 || strings.ToLower(ws[1]) != ws[1] {
+			return "bad-op", nil, nil
+		}
+	}
+	if ws[0] == "lrestore" {
+		if k, err := strconv.ParseUint(ws[1], 10, 31); err != nil || strconv.FormatUint(k, 10) != ws[1] {
+			return "bad-op", nil, nil
+		}
+	}
+	if w.gone {
+		return "gone", p, nil
+	}
+	switch ws[0] {
+	case "append":
 		var msg []byte
 		if ws[1] != "-" {
-			b, err := hex.DecodeString(ws[1])
-			if err != nil || len(b) == 0 || strings.ToLower(ws[1]) != ws[1] {
-				return "bad-op", nil
-			}
-			msg = b
+			msg, _ = hex.DecodeString(ws[1])
 		}
-		pre := w.lq.Queue().AppendedSeq()
-		o := w.observe()
+		preApp := w.lq.Queue().AppendedSeq()
 		if err := w.lp.WriteLog(msg); err != nil {
-			return "", err
+			return "", nil, err
 		}
-		if p := w.lq.Queue().AppendedSeq(); p == pre+1 {
-			w.lwEpoch[p] = w.epoch
-			w.lwSynced[p] = o.synced
+		if q := w.lq.Queue().AppendedSeq(); q == preApp+1 {
+			w.lwEpoch[q] = w.epoch
+			for i := range w.peers {
+				w.lwSynced[i][q] = pre.p[i].synced
+			}
 		}
-		return "idle", nil
-	case len(ws) == 2 && ws[0] == "step" && isFault(ws[1]):
-		if w.pending != nil {
-			return "suspended", nil
+		return "idle", nil, nil
+	case "step":
+		if p.stopped {
+			return "noreplicator", p, nil
 		}
-		w.resetStepFlags(ws[1])
-		return w.waitStep(w.startStep())
-	case len(ws) == 1 && ws[0] == "frestart":
-		w.closeFollower()
-		return "idle", w.openFollower()
-	case len(ws) == 1 && ws[0] == "flose":
-		w.closeFollower()
-		if err := os.RemoveAll(w.followerDir()); err != nil {
-			return "", err
+		if p.pending != nil {
+			return "suspended", p, nil
 		}
-		w.fwEpoch = map[int64]int{}
-		return "idle", w.openFollower()
-	case len(ws) == 1 && ws[0] == "lsnap":
-		if err := os.RemoveAll(w.imgDir()); err != nil {
-			return "", err
+		w.resetStepFlags(ws[2])
+		out, err := w.waitStep(p, w.startStep(p))
+		return out, p, err
+	case "frestart":
+		p.close()
+		return "idle", p, p.open()
+	case "flose":
+		p.close()
+		if err := os.RemoveAll(p.dir); err != nil {
+			return "", p, err
 		}
-		if err := copyTree(w.leaderDir(), w.imgDir()); err != nil {
-			return "", err
+		p.fwEpoch = map[int64]int{}
+		return "idle", p, p.open()
+	case "offline":
+		p.live = false
+		return "idle", p, nil
+	case "online":
+		p.live = true
+		if p.stopped {
+			return "noreplicator", p, nil
 		}
-		w.hasImg = true
-		w.imgEpochs, w.imgSynced = map[int64]int{}, map[int64]bool{}
+		fn := w.sm.fns[p.id]
+		if p.pending == nil {
+			if fn != nil {
+				fn(models.NodeOnline) // not suspended: the callback does nothing
+			}
+			return "idle", p, nil
+		}
+		w.resetStepFlags(ws[2])
+		done := p.pending
+		p.pending = nil
+		fn(models.NodeOnline) // hands the parked loop its wake-up
+		out, err := w.waitStep(p, done)
+		return out, p, err
+	case "lsnap":
+		w.imgSeq++
+		im := &image{dir: filepath.Join(w.dir, fmt.Sprintf("image-%d", w.imgSeq)), lwEpoch: map[int64]int{}}
+		if err := copyTree(w.leaderDir(), im.dir); err != nil {
+			return "", nil, err
+		}
 		for k, v := range w.lwEpoch {
-			w.imgEpochs[k] = v
+			im.lwEpoch[k] = v
 		}
-		for k, v := range w.lwSynced {
-			w.imgSynced[k] = v
+		for i := range w.peers {
+			im.lwSynced[i] = map[int64]bool{}
+			for k, v := range w.lwSynced[i] {
+				im.lwSynced[i][k] = v
+			}
 		}
-		return "idle", nil
-	case len(ws) == 1 && ws[0] == "lrestore":
-		if !w.hasImg {
-			return "idle", nil
+		w.imgs = append([]*image{im}, w.imgs...)
+		return "idle", nil, nil
+	case "lrestore":
+		k, _ := strconv.Atoi(ws[1])
+		if k >= len(w.imgs) {
+			return "idle", nil, nil
 		}
+		for _, old := range w.imgs[:k] {
+			os.RemoveAll(old.dir)
+		}
+		w.imgs = w.imgs[k:]
+		im := w.imgs[0]
 		w.closeLeader()
 		if err := os.RemoveAll(w.leaderDir()); err != nil {
-			return "", err
+			return "", nil, err
 		}
-		if err := copyTree(w.imgDir(), w.leaderDir()); err != nil {
-			return "", err
+		if err := copyTree(im.dir, w.leaderDir()); err != nil {
+			return "", nil, err
 		}
 		w.lossSeen = true
 		w.epoch++
-		w.lwEpoch, w.lwSynced = map[int64]int{}, map[int64]bool{}
-		for k, v := range w.imgEpochs {
+		w.lwEpoch = map[int64]int{}
+		for k, v := range im.lwEpoch {
 			w.lwEpoch[k] = v
 		}
-		for k, v := range w.imgSynced {
-			w.lwSynced[k] = v
-		}
-		return "idle", w.openLeader()
-	case len(ws) == 1 && ws[0] == "lrestart":
-		w.closeLeader()
-		return "idle", w.openLeader()
-	case len(ws) == 1 && ws[0] == "offline":
-		w.live = false
-		w.sm.live = false
-		return "idle", nil
-	case len(ws) == 2 && ws[0] == "online" && isFault(ws[1]):
-		w.live = true
-		w.sm.live = true
-		if w.pending == nil {
-			if w.sm.fn != nil {
-				w.sm.fn(models.NodeOnline) // not suspended: the callback does nothing
+		for i := range w.peers {
+			w.lwSynced[i] = map[int64]bool{}
+			for k, v := range im.lwSynced[i] {
+				w.lwSynced[i][k] = v
 			}
-			return "idle", nil
 		}
-		w.resetStepFlags(ws[1])
-		done := w.pending
-		w.pending = nil
-		w.sm.fn(models.NodeOnline) // hands the parked loop its wake-up
-		return w.waitStep(done)
-	case len(ws) == 1 && ws[0] == "gc":
+		return "idle", nil, w.openLeader()
+	case "lrestart":
+		w.closeLeader()
+		return "idle", nil, w.openLeader()
+	case "gc":
 		w.lp.IsExpire()
-		return "idle", nil
-	case len(ws) == 2 && ws[0] == "oack":
-		n, err := strconv.ParseInt(ws[1], 10, 64)
-		if err != nil {
-			return "bad-op", nil
+		return "idle", nil, nil
+	case "expire":
+		w.family.expired = true
+		expired := w.lp.IsExpire()
+		w.family.expired = false
+		left := map[string]bool{}
+		for _, n := range w.lq.ConsumerGroupNames() {
+			left[n] = true
 		}
-		w.other.SetConsumedSeq(n)
-		w.other.Ack(n)
-		return "idle", nil
+		for _, q := range w.peers {
+			if !q.stopped && !left[strconv.Itoa(int(q.id))] {
+				q.stopped = true
+				if q.sess != nil && q.sess.closed {
+					q.sess = nil
+				}
+			}
+		}
+		if expired {
+			// writeAheadLog.destroy now stops the partition, closes the log and removes its directory;
+			// the harness keeps the files until the observation of this event is taken (world.destroy)
+			w.gone = true
+			return "expired", nil, nil
+		}
+		return "idle", nil, nil
 	}
-	return "bad-op", nil
+	return "bad-op", nil, nil
 }
 
 // ---------------------------------------------------------------- impl-side oracle
 
 // check evaluates C08's clauses on the real logs after one event.
-func (w *world) check(c *core.Ctx, op, out string, pre, post obs) {
-	// (1) the follower's log has no holes
-	for i, h := range post.fHeld {
-		if h == "!" {
-			c.Fail("follower-hole", fmt.Sprintf("after %q follower position %d (ack %d, appended %d) is not readable", op, i, post.fAck, post.fApp))
-		}
-	}
-	// bookkeeping: which leader bytes did the follower receive
-	if out == "acked" || out == "recvfail" || out == "mismatch" {
-		if w.lastReq != nil && post.fApp == pre.fApp+1 {
-			w.fwEpoch[post.fApp] = w.lwEpoch[post.fApp]
-		}
-	}
-	if w.hsReset {
-		w.fwEpoch = map[int64]int{}
-	}
-	// (2) agreement: a position held by both holds the same bytes. Histories without leader
-	// tail loss: always. With tail loss: whenever the channel is synced (the instant between
-	// the loss and the next handshake cannot be repaired by any protocol).
-	if !w.lossSeen || post.synced {
-		for i, fb := range post.fHeld {
-			lb, ok := post.lHeld[i]
-			if !ok || lb == fb || lb == "!" || fb == "!" {
-				continue
-			}
-			key := "agreement"
-			switch {
-			case !w.lossSeen:
-				key = "agreement-without-leader-loss"
-			case i > post.gack:
-				key = "agreement-above-ack-when-synced"
-			case w.lwEpoch[i] > w.fwEpoch[i] && w.lwSynced[i]:
-				// the leader appended at a position the follower already held while the channel
-				// was synced: the handshake did not move the append index past the follower
-				key = "handshake-follower-ahead-by-one"
-			case w.lwEpoch[i] > w.fwEpoch[i]:
-				key = "tail-loss-reappend-before-handshake"
-			}
-			c.Fail(key, fmt.Sprintf("after %q position %d: leader holds %s, follower holds %s (group ack %d, synced=%v, leader bytes from epoch %d, follower copy from epoch %d)",
-				op, i, lb, fb, post.gack, post.synced, w.lwEpoch[i], w.fwEpoch[i]))
-		}
-	}
-	// (3) ack soundness
+func (w *world) check(c *core.Ctx, op, out string, ep *peer, pre, post obs) {
 	restart := strings.HasPrefix(op, "lrest")
-	if !restart && post.gack != pre.gack && post.gack > post.fApp {
-		c.Fail("ack-beyond-follower", fmt.Sprintf("after %q group ack moved %d -> %d but follower appended is %d", op, pre.gack, post.gack, post.fApp))
+	// which handshake ran, and did it move the leader's append index while the other channel was ready
+	resetAppend := ep != nil && w.hsSeen && post.lAck != pre.lAck && post.lAck == w.hsRemoteAck && post.lApp == w.hsRemoteAck && w.hsRemoteAck > w.hsLeaderApp
+	if resetAppend {
+		for i, q := range w.peers {
+			if q != ep && pre.p[i].chanSt == "ready" {
+				q.disturbed = true
+			}
+		}
 	}
-	if post.synced && post.gack > post.fApp {
-		c.Fail("synced-ack-beyond-follower", fmt.Sprintf("after %q synced with group ack %d > follower appended %d", op, post.gack, post.fApp))
-	}
-	// (4) resync: a synced channel's next replica index is the follower's next index; after a
-	// handshake it is max(follower next, group ack + 1) of the state before
-	if post.synced && post.cons != post.fApp {
-		c.Fail("synced-replica-index", fmt.Sprintf("after %q synced with consumed %d but follower appended %d", op, post.cons, post.fApp))
-	}
-	if out == "mismatch" {
-		c.Fail("mismatched-answer", fmt.Sprintf("%q: follower answered %d to offered index %d", op, w.lastResp.AckIndex, w.lastReq.ReplicaIndex))
-	}
-	if out == "ignored" {
-		c.Fail("ignored-message", fmt.Sprintf("%q: leader could not read a consumed message (consumed %d, queue ack %d, appended %d)", op, post.cons, post.lAck, post.lApp))
+	for i, p := range w.peers {
+		pr, po := pre.p[i], post.p[i]
+		mine := ep == p
+		fail := func(key, desc string) {
+			// ResetAppendIndex by the OTHER follower's handshake moved this follower's group
+			if resetAppend && !mine && (key == "ack-beyond-follower" || key == "ack-not-covered") {
+				key = "reset-append-moves-other-followers-group"
+			}
+			if p.disturbed {
+				switch key {
+				case "synced-ack-beyond-follower", "synced-replica-index", "mismatched-answer":
+					key = "reset-append-moves-other-followers-group"
+				}
+			}
+			c.Fail(key, fmt.Sprintf("follower %s: %s", p.name, desc))
+		}
+		// (1) the follower's log has no holes
+		for j, h := range po.fHeld {
+			if h == "!" {
+				fail("follower-hole", fmt.Sprintf("after %q follower position %d (ack %d, appended %d) is not readable", op, j, po.fAck, po.fApp))
+			}
+		}
+		// bookkeeping: which leader bytes did the follower receive
+		if mine && (out == "acked" || out == "recvfail" || out == "mismatch") && w.lastReq != nil && po.fApp == pr.fApp+1 {
+			p.fwEpoch[po.fApp] = w.lwEpoch[po.fApp]
+		}
+		if mine && w.hsReset {
+			p.fwEpoch = map[int64]int{}
+		}
+		// (2) agreement: a position held by both holds the same bytes. Histories without leader
+		// tail loss: always. With tail loss: whenever the channel is synced (the instant between
+		// the loss and the next handshake cannot be repaired by any protocol).
+		if !w.lossSeen || po.synced {
+			for j, fb := range po.fHeld {
+				lb, ok := post.lHeld[j]
+				if !ok || lb == fb || lb == "!" || fb == "!" {
+					continue
+				}
+				key := "agreement"
+				switch {
+				case !w.lossSeen:
+					key = "agreement-without-leader-loss"
+				case j > po.gack:
+					key = "agreement-above-ack-when-synced"
+				case w.lwEpoch[j] > p.fwEpoch[j] && w.lwSynced[i][j]:
+					key = "append-on-held-position-while-synced"
+				case w.lwEpoch[j] > p.fwEpoch[j]:
+					key = "tail-loss-reappend-before-handshake"
+				}
+				fail(key, fmt.Sprintf("after %q position %d: leader holds %s, follower holds %s (group ack %d, synced=%v, leader bytes from epoch %d, follower copy from epoch %d)",
+					op, j, lb, fb, po.gack, po.synced, w.lwEpoch[j], p.fwEpoch[j]))
+			}
+		}
+		// (3) acknowledgements: a moved ack is a position the follower has appended; without leader
+		// tail loss every newly acknowledged position is held by the follower at that moment and the
+		// follower's log never starts beyond the leader's ack for it
+		if !restart && po.gack != pr.gack && po.gack > po.fApp {
+			fail("ack-beyond-follower", fmt.Sprintf("after %q group ack moved %d -> %d but follower appended is %d", op, pr.gack, po.gack, po.fApp))
+		}
+		if !restart && !w.lossSeen && po.gack > pr.gack {
+			for j := pr.gack + 1; j <= po.gack; j++ {
+				if h, ok := po.fHeld[j]; !ok || h == "!" {
+					fail("ack-not-covered", fmt.Sprintf("after %q group ack moved %d -> %d but the follower does not hold position %d (its log is %d/%d)", op, pr.gack, po.gack, j, po.fAck, po.fApp))
+					break
+				}
+			}
+		}
+		if !w.lossSeen && po.fAck > po.gack {
+			fail("follower-base-beyond-ack", fmt.Sprintf("after %q the follower's log starts after %d but the leader's ack for it is %d: positions %d..%d can never be replicated", op, po.fAck, po.gack, po.gack+1, po.fAck))
+		}
+		if po.synced && po.gack > po.fApp {
+			fail("synced-ack-beyond-follower", fmt.Sprintf("after %q synced with group ack %d > follower appended %d", op, po.gack, po.fApp))
+		}
+		// (4) resync: a synced channel's next replica index is the follower's next index
+		if po.synced && po.cons != po.fApp {
+			fail("synced-replica-index", fmt.Sprintf("after %q synced with consumed %d but follower appended %d", op, po.cons, po.fApp))
+		}
+		if mine && out == "mismatch" {
+			fail("mismatched-answer", fmt.Sprintf("%q: follower answered %d to offered index %d", op, w.lastResp.AckIndex, w.lastReq.ReplicaIndex))
+		}
+		if mine && out == "ignored" {
+			fail("ignored-message", fmt.Sprintf("%q: leader could not read a consumed message (consumed %d, queue ack %d, appended %d)", op, po.cons, post.lAck, post.lApp))
+		}
+		// (5) the leader never discards a position this follower has not acknowledged
+		if po.stopped && !pr.stopped && post.lApp > po.gack {
+			fail("discarded-with-unacked", fmt.Sprintf("after %q the follower's group and replicator were stopped with appended %d > group ack %d (follower appended %d)", op, post.lApp, po.gack, po.fApp))
+		}
 	}
 }
 
@@ -821,66 +1021,92 @@ func genMsg(rng *rand.Rand, ctr *int) string {
 }
 
 func genCase(rng *rand.Rand, tier string, idx int) []string {
-	n := 12 + rng.Intn(28)
+	n := 14 + rng.Intn(30)
 	if tier == "thorough" {
-		n = 12 + rng.Intn(70)
+		n = 14 + rng.Intn(76)
 	}
 	noLoss := idx%2 == 0 // half of the histories never lose the leader's tail
 	malformed := idx%9 == 5
+	oneSided := idx%5 == 3 // mostly one follower: long single-channel fault sequences
+	who := func() string {
+		if oneSided && rng.Intn(8) != 0 {
+			return "a"
+		}
+		if rng.Intn(5) < 3 {
+			return "a"
+		}
+		return "b"
+	}
 	var ops []string
 	ctr := idx * 7
 	for len(ops) < n {
 		r := rng.Intn(100)
 		switch {
-		case r < 28:
+		case r < 26:
 			ops = append(ops, "append "+genMsg(rng, &ctr))
-		case r < 58:
-			ops = append(ops, "step none")
-		case r < 68:
-			ops = append(ops, "step "+faults[1+rng.Intn(len(faults)-1)])
-		case r < 72:
-			ops = append(ops, "frestart")
-		case r < 75:
-			ops = append(ops, "flose")
-		case r < 79:
+		case r < 56:
+			ops = append(ops, "step "+who()+" none")
+		case r < 67:
+			ops = append(ops, "step "+who()+" "+faults[1+rng.Intn(len(faults)-1)])
+		case r < 71:
+			ops = append(ops, "frestart "+who())
+		case r < 74:
+			ops = append(ops, "flose "+who())
+		case r < 78:
 			ops = append(ops, "lsnap")
-		case r < 84:
+		case r < 83:
 			if noLoss {
 				ops = append(ops, "lrestart")
 			} else {
-				ops = append(ops, "lrestore")
+				ops = append(ops, fmt.Sprintf("lrestore %d", rng.Intn(3)))
 			}
-		case r < 86:
+		case r < 85:
 			ops = append(ops, "lrestart")
-		case r < 89:
-			ops = append(ops, "offline")
-		case r < 93:
+		case r < 88:
+			ops = append(ops, "offline "+who())
+		case r < 92:
 			f := "none"
 			if rng.Intn(4) == 0 {
 				f = faults[1+rng.Intn(len(faults)-1)]
 			}
-			ops = append(ops, "online "+f)
-		case r < 97:
+			ops = append(ops, "online "+who()+" "+f)
+		case r < 98:
 			ops = append(ops, "gc")
 		default:
-			ops = append(ops, fmt.Sprintf("oack %d", rng.Intn(12)-1))
+			ops = append(ops, "expire")
 		}
 		if malformed && rng.Intn(6) == 0 {
-			bad := []string{"step bogus", "append zz", "append", "oack x", "online", "restart", "append A1", "step none none"}
+			bad := []string{"step a bogus", "step c none", "append zz", "append", "lrestore x", "lrestore -1", "online a", "restart", "append A1", "step none", "flose", "expire now"}
 			ops = append(ops, bad[rng.Intn(len(bad))])
 		}
 	}
 	return ops
 }
 
-// witnesses replayed on every run (cases 0 and 1)
-var witnessB = []string{ // leader loses its tail and re-appends beyond the follower before the handshake
-	"append a0", "append a1", "append a2", "append a3", "step none", "step none", "step none", "step none",
-	"lsnap", "append a4", "append a5", "step none", "step none", "lrestore",
-				"append b4", "append b5", "append b6", "step none"}
-var witnessD = []string{ // follower ahead of the restored leader by exactly one
-	"append a0", "append a1", "append a2", "append a3", "step none", "step none", "step none", "step none",
-	"lsnap", "append a4", "step none", "lrestore", "step none", "append b4", "append b5", "step none"}
+// fixed histories replayed on every run (cases 0..5)
+var fixedCases = [][]string{
+	// 0: known finding: the leader loses its tail and re-appends beyond the follower before the handshake
+	{"append a0", "append a1", "append a2", "append a3", "step a none", "step a none", "step a none", "step a none",
+		"lsnap", "append a4", "append a5", "step a none", "step a none", "lrestore 0",
+		"append b4", "append b5", "append b6", "step a none"},
+	// 1: fixed finding: follower ahead of the restored leader by exactly one
+	{"append a0", "append a1", "append a2", "append a3", "step a none", "step a none", "step a none", "step a none",
+		"lsnap", "append a4", "step a none", "lrestore 0", "step a none", "append b4", "append b5", "step a none"},
+	// 2: two followers: A's handshake moves the leader's append index (and B's group) while B's channel is ready
+	{"append a0", "append a1", "append a2", "append a3", "step a none", "step a none", "step a none", "step a none",
+		"step b none", "step b none", "step b none", "step b none", "lsnap",
+		"append a4", "append a5", "append a6", "step a none", "step a none", "step a none", "lrestore 0",
+		"step b none", "step a none", "append b7", "step b none", "append b8", "step b none", "step a none", "step a none"},
+	// 3: a request lost in flight, then the follower loses its log before the next handshake
+	{"append a0", "append a1", "append a2", "step a none", "step a none", "step a none", "append a3", "step a send",
+		"flose a", "append a4", "append a5", "step a none", "step a none", "step a none", "step a none", "gc"},
+	// 4: the last appended message lost in flight, leader Sync/GC before the next handshake
+	{"append a0", "append a1", "append a2", "step a none", "step a none", "step a none", "step b none", "step b none", "step b none",
+		"append a3", "step b none", "step a send", "gc", "step a none", "append a4", "step a none", "step a none"},
+	// 5: expiry check while a message is un-acknowledged (loop parked on an offline follower), then while drained
+	{"append a0", "step a none", "step b none", "append a1", "step b none", "step a send", "offline a", "step a none", "expire",
+		"online a none", "step a none", "expire"},
+}
 
 func (area) Run(c *core.Ctx) error {
 	for i := 0; i < c.N; i++ {
@@ -888,12 +1114,9 @@ func (area) Run(c *core.Ctx) error {
 			continue
 		}
 		var ops []string
-		switch i {
-		case 0:
-			ops = witnessB
-		case 1:
-			ops = witnessD
-		default:
+		if i < len(fixedCases) {
+			ops = fixedCases[i]
+		} else {
 			ops = genCase(c.Rng(i), c.Tier, i)
 		}
 		if err := runCase(c, i, ops); err != nil {
@@ -913,8 +1136,12 @@ func runCase(c *core.Ctx, i int, ops []string) (err error) {
 	c.Op("reset", "ok "+w.observe().line)
 	acked, faulted := false, false
 	for _, op := range ops {
+		if w.gone {
+			break // the partition directory is removed by writeAheadLog.destroy: nothing left to drive
+		}
 		pre := w.observe()
 		var out string
+		var ep *peer
 		var aerr error
 		func() {
 			defer func() {
@@ -923,7 +1150,7 @@ func runCase(c *core.Ctx, i int, ops []string) (err error) {
 					c.Fail("panic", fmt.Sprintf("op %q panicked: %v", op, r))
 				}
 			}()
-			out, aerr = w.apply(c, op)
+			out, ep, aerr = w.apply(op, pre)
 		}()
 		if aerr != nil {
 			c.Fail("harness-error", fmt.Sprintf("op %q: %v", op, aerr))
@@ -953,17 +1180,25 @@ func runCase(c *core.Ctx, i int, ops []string) (err error) {
 			default:
 				c.Branch("handshake/rewind")
 			}
-			if w.hsRemoteAck == w.hsLeaderApp+1 && w.hsRemoteAck != w.hsLeaderCons {
-				c.Branch("handshake/follower-ahead-by-one")
-			}
 		}
 		if out == "acked" {
 			acked = true
 		}
-		if out == "sendfail" || out == "recvfail" || out == "notready" || out == "parked" || op == "flose" || op == "frestart" || op == "lrestore" {
+		if out == "sendfail" || out == "recvfail" || out == "notready" || out == "parked" || strings.HasPrefix(op, "flose") || strings.HasPrefix(op, "frestart") || strings.HasPrefix(op, "lrestore") {
 			faulted = true
 		}
-		w.check(c, op, out, pre, post)
+		w.check(c, op, out, ep, pre, post)
+		// a parked loop whose replicator was stopped cannot be resumed (it would touch a closed group)
+		stop := false
+		for _, p := range w.peers {
+			if p.stopped && p.pending != nil {
+				stop = true
+			}
+		}
+		if stop {
+			c.Branch("ended/parked-loop-stopped")
+			break
+		}
 	}
 	if acked && faulted {
 		c.NonTrivial()
